@@ -74,6 +74,9 @@ func c20Body(t *testing.T, s *sim.Scn, o *sim.Outcome) {
 				o.Count("duplicate-blobs-in-one-height", 1)
 			}
 			size := []int{1, 10, 40, 120, 200}[int(op.B+int64(j))%5]
+			if s.Cfg["big"] == 1 {
+				size = []int{700000, 300000, 40}[int(op.B+int64(j))%3] // a DA height worth several default-size batches
+			}
 			if s.Cfg["dups"] == 1 {
 				size = []int{10, 40, 120}[int(op.B)%3] // copies must be byte-identical: one size per height
 			}
@@ -101,6 +104,9 @@ func c20Body(t *testing.T, s *sim.Scn, o *sim.Outcome) {
 	var lastData [][]byte
 	restarts, calls := 0, 0
 	limits := []uint64{4, 12, 45, 130, 450, 0}
+	if s.Cfg["big"] == 1 {
+		limits = []uint64{0, 800000, 1000000, 2000000, 0, 0}
+	}
 	call := func(step int, class int64, what string) bool {
 		maxBytes := limits[int(class)%len(limits)]
 		res, err := seq.GetNextBatch(ctx, coresequencer.GetNextBatchRequest{Id: id, LastBatchData: lastData, MaxBytes: maxBytes})
@@ -203,6 +209,9 @@ func c20Body(t *testing.T, s *sim.Scn, o *sim.Outcome) {
 	da.ReadScript = map[uint64][]sim.ReadOutcome{}
 	da.SetCur(lastContent + 2)
 	budget := 6 + int(lastContent-startH+1)
+	if s.Cfg["big"] == 1 {
+		budget += len(order) // a default-size batch holds two of the big transactions at most
+	}
 	for j := 0; j < budget && released < len(order); j++ {
 		if !call(len(s.Ops)+j, 5, "drain next") {
 			return
@@ -224,7 +233,13 @@ func c20Body(t *testing.T, s *sim.Scn, o *sim.Outcome) {
 
 func c20Gen(r *rand.Rand, tier string) *sim.Scn {
 	s := &sim.Scn{Cfg: map[string]int64{"start": r.Int64N(3), "drift": r.Int64N(4), "dups": int64(r.IntN(4) / 3)}}
+	if r.IntN(25) == 0 {
+		s.Cfg["big"], s.Cfg["dups"] = 1, 0
+	}
 	nh := 1 + r.IntN(8)
+	if s.Cfg["big"] == 1 {
+		nh = 1 + r.IntN(3)
+	}
 	for i := 0; i < nh; i++ {
 		cnt := r.Int64N(7)
 		if r.IntN(4) == 0 {
